@@ -375,6 +375,7 @@ class Folder:
         self.class_stubs = {}  # class name -> factory(folder, args, kw): abstract stand-in for instances of that class
         self.external_attrs = {}   # attribute name -> callable(obj): attributes of base classes outside the package
         self.abstract_join = None  # callable(parts) for f-strings with abstract (native) parts
+        self.optimize = False      # evaluate as under `python -O` (assert statements removed)
         self.numpy = None          # sa.npstub when the rule wants numpy's 1-d arrays modelled (never the real numpy)
         self.steps = 0
         self.max_steps = max_steps
@@ -393,6 +394,43 @@ class Folder:
     def make(self, cls_name: str, **fields) -> DV:
         ci = self.repo.cls(cls_name, 'fold')
         return self._construct(ci, [], fields)
+
+    def clone(self, obj, memo=None):
+        """Deep copy of a mutable object of the subject (objects with a constructor, dicts, lists, sets, modelled arrays): a snapshot
+        from which an exploration can branch.  Enum members, class references and frozen dataclass values are shared."""
+        memo = {} if memo is None else memo
+        if id(obj) in memo:
+            return memo[id(obj)]
+        if isinstance(obj, DV) and id(obj) in self._fresh:
+            c = DV(obj.cls, {})
+            memo[id(obj)] = c
+            self._fresh.add(id(c))
+            self._keep.append(c)
+            for k, v in obj.fields.items():
+                c.fields[k] = self.clone(v, memo)
+            return c
+        if isinstance(obj, dict):
+            c = {}
+            memo[id(obj)] = c
+            for k, v in obj.items():
+                c[self.clone(k, memo)] = self.clone(v, memo)
+            return c
+        if isinstance(obj, list):
+            c = []
+            memo[id(obj)] = c
+            c.extend(self.clone(v, memo) for v in obj)
+            return c
+        if isinstance(obj, set):
+            c = {self.clone(v, memo) for v in obj}
+            memo[id(obj)] = c
+            return c
+        if isinstance(obj, tuple) and not (obj and isinstance(obj[0], str) and obj[0] in ('lambda', 'closure', 'func', 'pyfunc', 'builtin', 'strmethod', 'pymodule', 'extern')):
+            return tuple(self.clone(v, memo) for v in obj)
+        if getattr(obj, '_sa_native', False) and hasattr(obj, 'copy') and hasattr(obj, 'data'):
+            c = obj.copy()
+            memo[id(obj)] = c
+            return c
+        return obj
 
     # -- entry points ------------------------------------------------------
     def call_method(self, obj, name: str, *args, **kw):
@@ -539,6 +577,8 @@ class Folder:
             return ('strmethod', obj, name)
         if isinstance(obj, set) and name in ('add', 'remove', 'discard', 'copy', 'union', 'issubset', 'pop', 'clear', 'update'):
             return ('strmethod', obj, name)
+        if obj is None or isinstance(obj, (bool, int, float)):
+            raise FoldRaise('AttributeError', f"'{type(obj).__name__}' object has no attribute '{name}'")
         raise Unsupported(f'attribute {name} on {type(obj).__name__}')
 
     def _class_attr(self, ci: ClassInfo, name: str):
@@ -616,8 +656,8 @@ class Folder:
         return None
 
     def _block(self, body, env, mod, ci):
-        self._cur_mod = mod
         for st in body:
+            self._cur_mod = mod      # (a call evaluated by the previous statement may have moved it)
             self.steps += 1
             if self.steps > self.max_steps:
                 raise Unsupported('step limit')
@@ -700,6 +740,8 @@ class Folder:
                 finally:
                     self._block(st.finalbody, env, mod, ci)
             elif isinstance(st, ast.Assert):
+                if self.optimize:
+                    continue        # python -O: assert statements are not compiled
                 if not self._truth(self._eval(st.test, env, mod, ci)):
                     raise FoldRaise('AssertionError', ast.unparse(st.test))
             elif isinstance(st, ast.Pass):
@@ -1336,6 +1378,7 @@ class Folder:
             return self._invoke(f[1], None, f[2], None, args, kw)
         if isinstance(f, tuple) and f[0] == 'pyfunc':
             conv = [self._as_callable(a) for a in args]
+            conv = [[EV(a.cls, k_, v_) for k_, v_ in a.cls.enum_members().items()] if isinstance(a, ClsRef) and a.cls.is_enum else a for a in conv]
             try:
                 return f[1](*conv, **kw)
             except (Unsupported, FoldRaise):
@@ -1356,6 +1399,8 @@ class Folder:
             return self._eval(node.body, env2, cmod, cci)
         if isinstance(f, tuple) and f[0] == 'strmethod':
             conv2 = [self._as_callable(a) for a in args]
+            # an enum class handed to a method of a builtin container can only be iterated: its members in definition order
+            conv2 = [[EV(a.cls, k_, v_) for k_, v_ in a.cls.enum_members().items()] if isinstance(a, ClsRef) and a.cls.is_enum else a for a in conv2]
             try:
                 return getattr(f[1], f[2])(*conv2, **kw)
             except (Unsupported, FoldRaise):
@@ -1380,11 +1425,13 @@ class Folder:
             if n == 'sorted':
                 import functools
                 items = list(args[0])
+                keyf = self._pycallable(kw.get('key')) if kw.get('key') is not None else (lambda x: x)
 
                 def cmp(a, b):
-                    if self._cmp(ast.Lt(), a, b):
+                    ka, kb = keyf(a), keyf(b)
+                    if self._truth(self._cmp(ast.Lt(), ka, kb)):
                         return -1
-                    if self._cmp(ast.Lt(), b, a):
+                    if self._truth(self._cmp(ast.Lt(), kb, ka)):
                         return 1
                     return 0
                 return sorted(items, key=functools.cmp_to_key(cmp), reverse=bool(kw.get('reverse', False)))
@@ -1397,7 +1444,20 @@ class Folder:
             if n == 'list':
                 return list(args[0]) if args else []
             if n in ('min', 'max'):
-                return (min if n == 'min' else max)(*args)
+                items = list(args[0]) if len(args) == 1 else list(args)
+                if isinstance(items, list) and len(args) == 1 and isinstance(args[0], ClsRef):
+                    raise Unsupported('min/max of a class')
+                if not items:
+                    if 'default' in kw:
+                        return kw['default']
+                    raise FoldRaise('ValueError', f'{n}() arg is an empty sequence')
+                keyf = self._pycallable(kw.get('key')) if kw.get('key') is not None else (lambda x: x)
+                best, bk = items[0], keyf(items[0])
+                for x in items[1:]:
+                    k = keyf(x)
+                    if self._truth(self._cmp(ast.Lt(), k, bk) if n == 'min' else self._cmp(ast.Gt(), k, bk)):
+                        best, bk = x, k
+                return best
             if n == 'dict':
                 return dict(*args)
             if n == 'range':
